@@ -34,8 +34,10 @@ NeedsNoQuoting(n) == IsBareName(n)
 
 \* quoted string with the JSON escapes for quote, backslash and control characters
 QuotedText(s) == StrToken(s, 0)
+\* ... or with every escape the JSON string syntax offers (\/ \b \f \n \r \t, \uXXXX, surrogate pairs)
+QuotedTextE(s, st) == StrToken(s, IF "esc" \in DOMAIN st THEN st.esc ELSE 0)
 
-NameText(n, st) == IF st.quote \/ ~IsBareName(n) THEN QuotedText(n) ELSE n
+NameText(n, st) == IF st.quote \/ ~IsBareName(n) THEN QuotedTextE(n, st) ELSE n
 
 IndexText(ix, st) ==
   IF ix.t = "n" THEN IntTextOf(ix.v)
@@ -50,11 +52,11 @@ RECURSIVE JoinWith(_, _)
 JoinWith(ts, sep) == IF Len(ts) = 0 THEN <<>> ELSE IF Len(ts) = 1 THEN ts[1] ELSE (ts[1] \o sep) \o JoinWith(Tail(ts), sep)
 
 \* literal text: numbers by their lexeme table
-PvText(v, fl) ==
+PvText(v, fl, st) ==
   CASE v.v = "null" -> WNull
     [] v.v = "bool" -> IF v.b = 1 THEN WTrue ELSE WFalse
     [] v.v = "num" -> IF v.r = "f" THEN FloatLexeme(fl, v.b) ELSE IntText([r |-> v.r, b |-> v.b])
-    [] v.v = "str" -> QuotedText(v.s)
+    [] v.v = "str" -> QuotedTextE(v.s, st)
 
 OpText(op) ==
   CASE op = "eq" -> <<61, 61>> [] op = "ne" -> <<33, 61>> [] op = "lt" -> <<60>> [] op = "le" -> <<60, 61>>
@@ -68,7 +70,7 @@ StepText(s, st, fl) ==
     [] s.p = "brw" -> (((<<91>> \o WS(st)) \o <<42>>) \o WS(st)) \o <<93>>
     [] s.p = "dot" -> <<46>> \o NameText(s.n, st)
     [] s.p = "colon" -> <<58>> \o NameText(s.n, st)
-    [] s.p = "objf" -> (((<<91>> \o WS(st)) \o QuotedText(s.n)) \o WS(st)) \o <<93>>
+    [] s.p = "objf" -> (((<<91>> \o WS(st)) \o QuotedTextE(s.n, st)) \o WS(st)) \o <<93>>
     [] s.p = "idx" -> (<<91>> \o JoinWith([i \in 1..Len(s.ix) |-> (WS(st) \o AiText(s.ix[i], st)) \o WS(st)], <<44>>)) \o <<93>>
     [] s.p = "filter" -> ((((<<63>> \o WS(st)) \o <<40>>) \o WS(st)) \o ExprText(s.e, st, fl, 0)) \o WS(st) \o <<41>>
     [] s.p = "pred" -> ExprText(s.e, st, fl, 0)
@@ -78,7 +80,7 @@ StepsText(ps, st, fl) == JoinWith([i \in 1..Len(ps) |-> StepText(ps[i], st, fl)]
 \* level: 0 inside ||, 1 inside &&, 2 operand position; parentheses where the tree needs them
 ExprText(e, st, fl, level) ==
   CASE e.e = "paths" -> StepsText(e.ps, st, fl)
-    [] e.e = "val" -> PvText(e.v, fl)
+    [] e.e = "val" -> PvText(e.v, fl, st)
     [] e.e = "exists" -> ((((<<101, 120, 105, 115, 116, 115>> \o WS(st)) \o <<40>>) \o WS(st)) \o StepsText(e.ps, st, fl)) \o WS(st) \o <<41>>
     [] e.e = "bin" ->
          IF e.op = "or"
@@ -113,12 +115,12 @@ PathPlain(ps) == \A i \in 1..Len(ps) : StepPlain(ps[i])
 
 ----------------------------------------------------------------------------
 (* key paths: [i |-> n] | [n |-> bytes] plain name | [q |-> bytes] quoted name *)
-KpElemText(e) ==
+KpElemText(e, st) ==
   IF "i" \in DOMAIN e THEN IntTextOf(e.i)
-  ELSE IF "q" \in DOMAIN e THEN QuotedText(e.q)
+  ELSE IF "q" \in DOMAIN e THEN QuotedTextE(e.q, st)
   ELSE e.n
 KeyPathText(kp, st) ==
-  ((WS(st) \o <<123>>) \o (IF Len(kp) = 0 THEN WS(st) ELSE JoinWith([i \in 1..Len(kp) |-> (WS(st) \o KpElemText(kp[i])) \o WS(st)], <<44>>)))
+  ((WS(st) \o <<123>>) \o (IF Len(kp) = 0 THEN WS(st) ELSE JoinWith([i \in 1..Len(kp) |-> (WS(st) \o KpElemText(kp[i], st)) \o WS(st)], <<44>>)))
   \o <<125>> \o WS(st)
 \* a plain key-path name: name characters, not starting with a digit or sign
 IsPlainKpName(n) == IsBareName(n) /\ ~(n[1] >= 48 /\ n[1] <= 57) /\ n[1] # 43 /\ n[1] # 45
